@@ -15,6 +15,21 @@ def _shared_target(sc):
     return os.path.join(sc, "target")
 
 
+def _transient(r):
+    """a result that carries a tool failure (killed compiler, harness defect, missing output) is never
+    stored: the next run must try again"""
+    if not isinstance(r, dict):
+        return True
+    if r.get("build_error") or r.get("run_error") or r.get("error"):
+        return True
+    inst = r.get("instances")
+    if isinstance(inst, dict) and (inst.get("build_error") or inst.get("run_error")):
+        return True
+    if r.get("undecided"):
+        return True
+    return False
+
+
 def get_t(tier):
     key = tree_hash(("T", tier))
     r = cache_get("layer_t", key)
@@ -36,7 +51,8 @@ def get_t(tier):
             r["undecided"] += r32["undecided"]
     r["wall_s"] = time.time() - t0
     r["cache_hit"] = False
-    cache_put("layer_t", key, r)
+    if not _transient(r):
+        cache_put("layer_t", key, r)
     return r
 
 
@@ -83,7 +99,8 @@ def get_i(tier, seed):
     r["decls"] = {s.mod: s.render() for s in specs} if len(specs) < 2000 else {}
     r["wall_s"] = time.time() - t0
     r["cache_hit"] = False
-    cache_put("layer_i", key, r)
+    if not _transient(r):
+        cache_put("layer_i", key, r)
     return r
 
 
@@ -96,7 +113,8 @@ def get_r(tier="quick"):
     with Scratch("vf-r-") as sc:
         r = layer_r.run_layer_r(sc)
     r["cache_hit"] = False
-    cache_put("layer_r", key, r)
+    if not _transient(r):
+        cache_put("layer_r", key, r)
     return r
 
 
@@ -111,7 +129,8 @@ def get_g(tier="quick"):
         r = layer_g.run_layer_g(sc)
     r["wall_s"] = time.time() - t0
     r["cache_hit"] = False
-    cache_put("layer_g", key, r)
+    if not _transient(r):
+        cache_put("layer_g", key, r)
     return r
 
 
@@ -126,7 +145,8 @@ def get_s(tier, seed):
         r = layer_s.run_layer_s(sc, tier, seed)
     r["wall_s"] = time.time() - t0
     r["cache_hit"] = False
-    cache_put("layer_s", key, r)
+    if not _transient(r):
+        cache_put("layer_s", key, r)
     return r
 
 
@@ -145,7 +165,8 @@ def get_c11(tier, seed):
     r["decls"] = {s.mod: s.render() for s in specs} if len(specs) < 400 else {s.mod: s.render() for s in specs if len(s.variants) < 500}
     r["wall_s"] = time.time() - t0
     r["cache_hit"] = False
-    cache_put("layer_c11", key, r)
+    if not _transient(r):
+        cache_put("layer_c11", key, r)
     return r
 
 
@@ -158,7 +179,8 @@ def get_k(tier="quick"):
     with Scratch("vf-k-") as sc:
         r = layer_k.run_layer_k(sc, tier, jobs=12)
     r["cache_hit"] = False
-    cache_put("layer_k", key, r)
+    if not _transient(r):
+        cache_put("layer_k", key, r)
     return r
 
 
@@ -174,5 +196,6 @@ def get_n(pid, tier):
         r = layer_n.run_negative(sc, specs, name="neg_" + pid.lower())
     r["wall_s"] = time.time() - t0
     r["cache_hit"] = False
-    cache_put("layer_n", key, r, keep=8)
+    if not _transient(r):
+        cache_put("layer_n", key, r, keep=8)
     return r
